@@ -49,3 +49,16 @@ Corollary C16_main_on_translated_source :
   forall ch i d s e, consistent s e = true -> in_range ch i d s e ->
     leaf_notes_per_second ch i d s e = spec_nps ch i d s e.
 Proof. intros ch i d s e H1 H2. rewrite leaf_notes_per_second_ok. exact (C16_main ch i d s e H1 H2). Qed.
+
+(** [Chart.__getitem__] as translated from the current source is the subscript step of the chart-state model
+    (Model/ChartState.v, a plain dict: no auto-insertion): the inner mapping's keys, or KeyError, and the state unchanged. *)
+From CP Require Import Model.ChartState.
+Theorem leaf_chart_getitem_ok : forall st i, cs_extra st = [] ->
+  step false st (OGetItem i) =
+  (st, match leaf_chart_getitem (cs_chart st) i with Ok inner => RKeys (map fst inner) | Err e => RErr e end).
+Proof.
+  intros st i H. unfold leaf_chart_getitem, dict_get. cbn [step].
+  destruct (assoc i (c_tracks (cs_chart st))) as [inner|]; [reflexivity|].
+  rewrite H. cbn. reflexivity.
+Qed.
+Print Assumptions leaf_chart_getitem_ok.
